@@ -5,6 +5,7 @@ CAL = "optimum/quanto/calibrate.py"
 AWQ = "optimum/quanto/tensor/qbits/awq/packed.py"
 OPS = "optimum/quanto/tensor/qbytes_ops.py"
 QBOPS = "optimum/quanto/tensor/qbits/qbits_ops.py"
+MM = "optimum/quanto/library/qbytes_mm.py"
 
 
 def M(id, prop, kind, edits, rule=None):
@@ -130,4 +131,15 @@ MUTANTS = [
     M("c06-tocopy-float8-to-scale-again", "C06", "break", [(OPS, "(not dtype.is_floating_point or dtype.itemsize == 1)", "(not dtype.is_floating_point)")], "C06.R4"),
     M("c06-qbits-tocopy-memory-format-to-scale-again", "C06", "break", [(QBOPS, "    scale = op(t._scale, dtype=dtype, device=device, **scale_kwargs)", "    scale = op(t._scale, dtype=dtype, device=device, **kwargs)")], "C06.R4"),
     M("c15-awq-zeropoint-narrow-again", "C15", "break", [("optimum/quanto/tensor/qbits/awq/qbits.py", "(-zeropoint.to(scale.dtype) * scale)", "(-zeropoint * scale)")], "C15.R5"),
+    # ---- platform preconditions of the CPU routes (F19, F20, F63), re-introduced, and behaviour-preserving variants
+    M("c07-int8pack-weights-unaligned-again", "C07", "break", [(MM, "    if weights.data_ptr() % 16 != 0:\n        weights = weights.clone()\n", "")], "C07.R5"),
+    M("c07-int8pack-activations-unaligned-again", "C07", "break", [(MM, "    if activations.data_ptr() % 16 != 0:\n        activations = activations.clone()\n", "")], "C07.R5"),
+    M("c07-int8pack-realign-with-contiguous", "C07", "break", [(MM, "    if weights.data_ptr() % 16 != 0:\n        weights = weights.clone()\n", "    if weights.data_ptr() % 16 != 0:\n        weights = weights.contiguous()\n")], "C07.R5"),
+    M("c07-refactor-int8pack-align-64", "C07", "refactor", [(MM, "    if weights.data_ptr() % 16 != 0:\n        weights = weights.clone()\n", "    if weights.data_ptr() % 64 != 0:\n        weights = weights.clone()\n")]),
+    M("c07-refactor-int8pack-always-clone", "C07", "refactor", [(MM, "    if weights.data_ptr() % 16 != 0:\n        weights = weights.clone()\n", "    weights = weights.clone()\n")]),
+    M("c07-cpu-int8pack-mod4-again", "C07", "break", [(MM, "        and in_features % 16 == 0\n", "        and in_features % 4 == 0\n")], "C07.R5"),
+    M("c08-cpu-int8pack-mod4-again", "C08", "break", [(MM, "        and in_features % 16 == 0\n", "        and in_features % 4 == 0\n")], "C08.R8"),
+    M("c07-cpu-int-mm-inner-one-again", "C07", "break", [(MM, "        # torch._int_mm returns wrong sums on CPU when the inner dimension is one\n        and in_features > 1\n", "")], "C07.R5"),
+    M("c07-refactor-cpu-int-mm-inner-ge2", "C07", "refactor", [(MM, "        and in_features > 1\n", "        and in_features >= 2\n")]),
+    M("c07-refactor-cpu-int8pack-mod32", "C07", "refactor", [(MM, "        and in_features % 16 == 0\n", "        and in_features % 32 == 0\n")]),
 ]
